@@ -39,21 +39,28 @@ impl Lane for crate::sym::Sym {
     /// a fresh free symbol: every generated operand entry is a distinct variable
     fn gen(_rng: &mut StdRng) -> Self { crate::sym::Sym::fresh("x") }
 }
-/// Nesting depth of the ring elements of a logged field when they are polynomials ({"p": ..} objects):
-/// 0 scalar, 1 vector, 2 matrix; None for fields that hold no polynomial.
-fn poly_depth(v: &Value) -> Option<u32> {
+/// Shape descriptor of a logged value that contains polynomials of the symbolic lane ({"p": ..} objects):
+/// {"t":"P"} a polynomial, {"t":"L","e":[..]} a list with one descriptor per element, {"t":"R","f":{..}} an object
+/// (fields without polynomials are left out), {"t":"K"} anything else (kept as it is).  None: no polynomial inside.
+fn poly_shape(v: &Value) -> Option<Value> {
     match v {
-        Value::Object(m) if m.contains_key("p") => Some(0),
-        Value::Array(a) if !a.is_empty() => poly_depth(&a[0]).map(|d| d + 1),
+        Value::Object(m) if m.contains_key("p") => Some(json!({"t": "P"})),
+        Value::Object(m) => {
+            let mut f = Map::new();
+            for (k, x) in m.iter() { if let Some(d) = poly_shape(x) { f.insert(k.clone(), d); } }
+            if f.is_empty() { None } else { Some(json!({"t": "R", "f": f})) }
+        }
+        Value::Array(a) => {
+            let ds: Vec<Option<Value>> = a.iter().map(poly_shape).collect();
+            if ds.iter().all(|d| d.is_none()) { None } else { Some(json!({"t": "L", "e": ds.into_iter().map(|d| d.unwrap_or(json!({"t": "K"}))).collect::<Vec<_>>()})) }
+        }
         _ => None,
     }
 }
-/// Records of the symbolic lane carry `shp`: which fields are polynomials and how deeply nested, so that the
-/// trace specification can decode them (VekField!DecodeRec) before the ordinary actions are evaluated.
+/// Records of the symbolic lane carry `shp`, the shape descriptor of the whole record, so that the trace
+/// specification can decode the polynomials (VekField!DecodeRec) before the ordinary actions are evaluated.
 fn add_shape(m: &mut Map<String, Value>) {
-    let mut shp = Map::new();
-    for (k, v) in m.iter() { if let Some(d) = poly_depth(v) { shp.insert(k.clone(), json!(d)); } }
-    if !shp.is_empty() { m.insert("shp".into(), Value::Object(shp)); }
+    if let Some(d) = poly_shape(&Value::Object(m.clone())) { m.insert("shp".into(), d); }
 }
 macro_rules! int_lane { ($($t:ty, $name:expr);+) => {$(
     impl Lane for $t {
